@@ -31,13 +31,23 @@ def _reg():
         return r
     if isinstance(r, Mapping):
         return dict(r.items())
+    import types
+
+    def holds_registries(m) -> bool:
+        try:
+            return isinstance(m, Mapping) and "iban" in m and "bank" in m
+        except Exception:  # noqa: BLE001 - e.g. os.environb insists on bytes keys
+            return False
+
     for v in vars(registry).values():  # a renamed dict / store object holding the well-known names
-        if isinstance(v, Mapping) and "iban" in v and "bank" in v:
+        if isinstance(v, (types.ModuleType, type, types.FunctionType)):
+            continue
+        if holds_registries(v):
             return dict(v.items())
         inner = getattr(v, "__dict__", None)
         if isinstance(inner, dict):
             for w in inner.values():
-                if isinstance(w, Mapping) and "iban" in w and "bank" in w:
+                if holds_registries(w):
                     return dict(w.items())
     out = {}
     for name in REGISTRY_NAMES:
